@@ -116,7 +116,10 @@ C06(e) ==
         IF IsRefresh(e) THEN e.ttl = cfg.UpdTTL
         ELSE e.ttl = (IF At(cellOf, e.p, NoCell).has THEN At(cellOf, e.p, NoCell).c ELSE 0)
   /\ e.ev = "ret" => e.ttl = (IF At(cellOf, e.p, NoCell).has THEN At(cellOf, e.p, NoCell).c ELSE 0)
-  /\ e.ev = "bexit" => IF e.bg THEN e.note = "" ELSE e.note \in {"", "deadline;cancellable;"}
+  \* a synchronous build runs under the caller's context (deadline, cancellable, and cancelled if the caller cancels
+  \* while the builder runs); a background build sees none of that
+  /\ e.ev = "bexit" => IF e.bg THEN e.note = ""
+                        ELSE e.note \in {"", "deadline;cancellable;", "ctxerr:context canceled;deadline;cancellable;"}
   \* "SkipRead forces a rebuild whose result is still stored": judged for a Get that ran alone (a concurrent Get may
   \* legitimately be handed the lock owner's result, whatever that owner read).
   /\ (e.ev = "ret" /\ e.p \in skipP /\ cnt.calls = 1) =>
